@@ -18,13 +18,13 @@
    No proofs here (see Proofs/HeapProofs.v). *)
 From Coq Require Import List Arith Bool String.
 Import ListNotations.
-From RV Require Import Base.CRing Base.BigSum Model.Chain Gen.EvolveEntry.
+From RV Require Import Base.CRing Base.BigSum Model.Chain.
+From RV Require Export Gen.EvolveEntry Gen.OpEntries.      (* generated: entry table, operation rows, [field] *)
 
 (* ------------------------------------------------------------------ fields, layouts *)
 Definition loc := nat.
 Definition oid := nat.
-Inductive field := FSite | FLabel | FQntot | FCoeff | FMeta.
-
+(* [field] = FSite | FLabel | FQntot | FCoeff | FMeta comes from Gen/OpEntries.v *)
 Definition field_eqb (a b : field) : bool :=
   match a, b with
   | FSite, FSite | FLabel, FLabel | FQntot, FQntot | FCoeff, FCoeff | FMeta, FMeta => true
@@ -43,7 +43,7 @@ Definition flocs (fs : list field) (o : layout) : list loc :=
 Inductive world := Chain | Tree.
 Inductive scheme := PC | PCrk4 | PCrk | TdvpMuVmf | TdvpVmf | TdvpMuCmf | TdvpPs | TdvpPs2.
 Inductive opname :=
-  | New | Copy | MetacopyFill | ToComplex | Conj | Scale | Add | Distance | Apply | Contract
+  | New | Copy | MetacopyFill | ToComplex | Conj | ConjTrans | Scale | Add | Distance | Apply | Contract
   | CompressCopy | CanoCopy | Expectation | Expectations | Rdm | Entropy | Norm | Dense
   | Evolve (s : scheme) | EvolveDispatch | EvolveExact | FromMps | CompressedSum
   | ScaleIn | ToComplexIn | CanonicaliseIn | CompressIn | NormalizeIn | SetItem | SetCoeff | PokeSites
@@ -60,6 +60,7 @@ Definition chain_sig (o : opname) : sig :=
   | New | Copy | MetacopyFill | ToComplex | Scale | Apply | Contract | CompressCopy | CanoCopy
   | EvolveExact | EvolveDispatch => mkSig Derive [] [] []
   | Conj => mkSig Derive [] [] [FSite]            (* ndarray.conj() of a real buffer is the buffer itself *)
+  | ConjTrans => mkSig Derive [] [] [FSite]       (* moveaxis(...).conj(): a transposed view for real operators *)
   | Add | CompressedSum => mkSig Derive fold_fields [] []
   | Distance => mkSig Observe fold_fields [] []
   | Expectation | Expectations | Rdm | Entropy | Norm | Dense => mkSig Observe [] [] []
@@ -89,7 +90,7 @@ Definition tree_sig (o : opname) : sig :=
   | SetItem | PokeSites => mkSig Mutate [] [FSite] []
   | SetCoeff => mkSig Mutate [] [FCoeff] []
   | Optimize => mkSig Mutate [] [FSite; FLabel; FCoeff] []
-  | Conj | EvolveExact | FromMps => mkSig Observe [] [] []           (* not defined for trees: nothing allowed *)
+  | Conj | ConjTrans | EvolveExact | FromMps => mkSig Observe [] [] []   (* not defined for trees: nothing allowed *)
   end.
 
 Definition sig_of (w : world) (o : opname) : sig := match w with Chain => chain_sig o | Tree => tree_sig o end.
@@ -304,6 +305,130 @@ Definition table_complete : bool :=
   fn_present "_sum" && fn_present "tn.evolve_tdvp_vmf" && fn_present "tn.evolve_prop_and_compress_tdrk4" &&
   fn_present "tn.evolve_tdvp_ps" && fn_present "tn.evolve_tdvp_ps2".
 
+(* ------------------------------------------------------------------ signatures GENERATED from the source
+   Gen/OpEntries.v has one row per (method, variant, tracked parameter).  [op_rows] says which rows make up an
+   operation of the model and whether the tracked parameter is an operand or the declared in-place target.
+   [gen_sig] is the signature computed from the rows; the hand table [sig_of] above must agree with it
+   ([sig_tables_agree]) and only supplies the category (the API shape) and the operations without rows. *)
+Inductive prole := Operand | Target.
+Definition rowkey := (string * string * string * prole)%type.
+Definition op_rows (w : world) (o : opname) : list rowkey :=
+  match w, o with
+  | Chain, Copy | Chain, CanoCopy | Chain, CompressCopy => [("MatrixProduct.copy", "", "self", Operand)]
+  | Chain, MetacopyFill => [("MatrixProduct.metacopy", "", "self", Operand); ("Mps.metacopy", "", "self", Operand);
+                            ("Mpo.metacopy", "", "self", Operand)]
+  | Chain, ToComplex => [("MatrixProduct.to_complex", "inplace=False", "self", Operand); ("Mps.to_complex", "inplace=False", "self", Operand)]
+  | Chain, ToComplexIn => [("MatrixProduct.to_complex", "inplace=True", "self", Target); ("Mps.to_complex", "inplace=True", "self", Target)]
+  | Chain, Conj => [("MatrixProduct.conj", "", "self", Operand); ("Mps.conj", "", "self", Operand)]
+  | Chain, ConjTrans => [("Mpo.conj_trans", "", "self", Operand)]
+  | Chain, Scale => [("MatrixProduct.scale", "inplace=False", "self", Operand)]
+  | Chain, ScaleIn => [("MatrixProduct.scale", "inplace=True", "self", Target)]
+  | Chain, Add => [("MatrixProduct.add", "", "self", Operand); ("MatrixProduct.add", "", "other", Operand);
+                   ("Mps.add", "", "self", Operand); ("Mps.add", "", "other", Operand)]
+  | Chain, Distance => [("MatrixProduct.distance", "", "self", Operand); ("MatrixProduct.distance", "", "other", Operand);
+                        ("Mps.distance", "", "self", Operand); ("Mps.distance", "", "other", Operand)]
+  | Chain, CanonicaliseIn => [("MatrixProduct.canonicalise", "", "self", Target); ("MatrixProduct.ensure_left_canonical", "", "self", Target);
+                              ("MatrixProduct.ensure_right_canonical", "", "self", Target)]
+  | Chain, CompressIn => [("MatrixProduct.ensure_right_canonical", "", "self", Target); ("MatrixProduct.compress", "", "self", Target)]
+  | Chain, NormalizeIn => [("Mps.normalize", "", "self", Target)]
+  | Chain, Expectation => [("Mps.expectation", "", "self", Operand); ("Mps.expectation", "", "mpo", Operand)]
+  | Chain, Expectations => [("Mps.expectations", "", "self", Operand)]
+  | Chain, Rdm => [("Mps.calc_1site_rdm", "", "self", Operand); ("Mps.calc_2site_rdm", "", "self", Operand);
+                   ("Mps.calc_edof_rdm", "", "self", Operand)]
+  | Chain, Entropy => [("Mps.calc_entropy", "", "self", Operand); ("Mps.calc_bond_entropy", "", "self", Operand);
+                       ("Mps.calc_bond_singular_values", "", "self", Operand); ("Mps.calc_2site_mutual_entropy", "", "self", Operand)]
+  | Chain, Apply => [("Mpo.apply", "", "self", Operand); ("Mpo.apply", "", "mp", Operand);
+                     ("MpDm.apply", "", "self", Operand); ("MpDm.apply", "", "mp", Operand)]
+  | Chain, Contract => [("Mpo.contract", "", "self", Operand); ("Mpo.contract", "", "mps", Operand)]
+  | Chain, FromMps => [("MpDm.from_mps", "", "mps", Operand)]
+  | Tree, Copy | Tree, CanoCopy | Tree, CompressCopy => [("TTNS.copy", "", "self", Operand)]
+  | Tree, MetacopyFill => [("TTNS.metacopy", "", "self", Operand)]
+  | Tree, ToComplex => [("TTNS.to_complex", "inplace=False", "self", Operand)]
+  | Tree, ToComplexIn => [("TTNS.to_complex", "inplace=True", "self", Target)]
+  | Tree, Scale => [("TTNS.scale", "inplace=False", "self", Operand)]
+  | Tree, ScaleIn => [("TTNS.scale", "inplace=True", "self", Target)]
+  | Tree, Add => [("TTNS.add", "", "self", Operand); ("TTNS.add", "", "other", Operand)]
+  | Tree, Apply => [("TTNO.apply", "", "self", Operand); ("TTNO.apply", "", "ttns", Operand)]
+  | Tree, Contract => [("TTNO.contract", "", "self", Operand); ("TTNO.contract", "", "ttns", Operand)]
+  | Tree, CanonicaliseIn => [("TTNS.canonicalise", "", "self", Target)]
+  | Tree, CompressIn => [("TTNS.canonicalise", "", "self", Target); ("TTNS.compress", "", "self", Target)]
+  | Tree, NormalizeIn => [("TTNS.normalize", "", "self", Target)]
+  | Tree, Expectation => [("TTNS.expectation", "", "self", Operand); ("TTNS.expectation", "", "ttno", Operand)]
+  | Tree, Rdm => [("TTNS.calc_1site_rdm", "", "self", Operand); ("TTNS.calc_2site_rdm", "", "self", Operand);
+                  ("TTNS.calc_1dof_rdm", "", "self", Operand)]
+  | Tree, Entropy => [("TTNS.calc_bond_entropy", "", "self", Operand); ("TTNS.calc_bond_singular_values", "", "self", Operand);
+                      ("TTNS.calc_1site_entropy", "", "self", Operand)]
+  | _, _ => []
+  end.
+
+Definition covered_ops : list (world * opname) :=
+  [(Chain, Copy); (Chain, CanoCopy); (Chain, CompressCopy); (Chain, MetacopyFill); (Chain, ToComplex); (Chain, ToComplexIn);
+   (Chain, Conj); (Chain, ConjTrans); (Chain, Scale); (Chain, ScaleIn); (Chain, Add); (Chain, Distance);
+   (Chain, CanonicaliseIn); (Chain, CompressIn); (Chain, NormalizeIn); (Chain, Expectation); (Chain, Expectations);
+   (Chain, Rdm); (Chain, Entropy); (Chain, Apply); (Chain, Contract); (Chain, FromMps);
+   (Tree, Copy); (Tree, CanoCopy); (Tree, CompressCopy); (Tree, MetacopyFill); (Tree, ToComplex); (Tree, ToComplexIn);
+   (Tree, Scale); (Tree, ScaleIn); (Tree, Add); (Tree, Apply); (Tree, Contract); (Tree, CanonicaliseIn); (Tree, CompressIn);
+   (Tree, NormalizeIn); (Tree, Expectation); (Tree, Rdm); (Tree, Entropy)].
+
+Definition find_row (k : rowkey) : option oprow :=
+  let '(fn, v, p, _) := k in
+  find (fun r => (o_fn r =? fn) && (o_variant r =? v) && (o_param r =? p)) oprows.
+Definition is_operand (k : rowkey) : bool := match k with (_, _, _, Operand) => true | _ => false end.
+Definition benign_kind (k : wkind) : bool :=
+  match k with WConfig | WGauge | WFold | WScaleIdentity => true | _ => false end.
+Definition is_config_kind (k : wkind) : bool := match k with WConfig => true | _ => false end.
+Definition is_escape_kind (k : wkind) : bool := match k with WEscape | WHelperInplace => true | _ => false end.
+Definition row_fields (r : oprow) : list field :=
+  flat_map (fun w => if is_config_kind (pw_kind w) then [] else pw_fields w) (o_writes r).
+Fixpoint fdedup (l : list field) : list field :=
+  match l with [] => [] | f :: l' => if fmem f l' then fdedup l' else f :: fdedup l' end.
+Definition rows_of (ks : list rowkey) (operand : bool) : list oprow :=
+  flat_map (fun k => if Bool.eqb (is_operand k) operand then match find_row k with Some r => [r] | None => [] end else []) ks.
+
+(* the signature computed from the generated rows (category taken from the hand table) *)
+Definition gen_sig (w : world) (o : opname) : option sig :=
+  match op_rows w o with
+  | [] => None
+  | ks => if forallb (fun k => match find_row k with Some _ => true | None => false end) ks
+          then Some (mkSig (s_cat (sig_of w o))
+                           (fdedup (flat_map row_fields (rows_of ks true)))
+                           (fdedup (flat_map row_fields (rows_of ks false)))
+                           (fdedup (flat_map o_share (rows_of ks true))))
+          else None
+  end.
+
+(* the rows of an operation are admissible: every row exists; an operand is written only by configuration stores
+   and declared denotation-preserving rewrites (gauge, fold); a result-producing operation never returns its
+   operand; nothing the scanner did not understand *)
+Definition gen_ok (w : world) (o : opname) : bool :=
+  let ks := op_rows w o in
+  negb (is_nil ks) &&
+  forallb (fun k => match find_row k with
+                    | None => false
+                    | Some r => if is_operand k
+                                then forallb (fun x => benign_kind (pw_kind x)) (o_writes r) &&
+                                     (negb (is_derive (s_cat (sig_of w o))) || negb (o_ret_is_param r))
+                                else forallb (fun x => negb (is_escape_kind (pw_kind x))) (o_writes r)
+                    end) ks.
+
+Definition fset_eqb (a b : list field) : bool := fsubset a b && fsubset b a.
+Definition sig_agree (g h : sig) : bool :=
+  fset_eqb (s_rewrite g) (s_rewrite h) && fset_eqb (s_write g) (s_write h) && fset_eqb (s_share g) (s_share h).
+Definition tables_agree (w : world) (o : opname) : bool :=
+  match gen_sig w o with Some g => sig_agree g (sig_of w o) | None => false end.
+
+(* the signature the observations are checked against and that "obeys its signature" refers to: the GENERATED one
+   where rows exist, intersected field-wise with the hand table.  By [sig_tables_agree] the two coincide on the
+   unchanged tree, so this IS the generated signature there; when a source edit makes the generated rows declare
+   more (e.g. a new sharing), the cross-check fails as an obligation and the observation stays as sharp as before. *)
+Definition finter (a b : list field) : list field := filter (fun f => fmem f b) a.
+Definition gsig_of (w : world) (o : opname) : sig :=
+  match gen_sig w o with
+  | Some g => let h := sig_of w o in
+              mkSig (s_cat h) (finter (s_rewrite g) (s_rewrite h)) (finter (s_write g) (s_write h)) (finter (s_share g) (s_share h))
+  | None => sig_of w o
+  end.
+
 (* ------------------------------------------------------------------ observed effects vs signatures *)
 Record obs := mkObs {
   ob_world : world; ob_op : opname;
@@ -316,7 +441,7 @@ Record obs := mkObs {
 }.
 Definition is_mutate (c : cat) : bool := match c with Mutate => true | _ => false end.
 Definition within_sig (o : obs) : bool :=
-  let sg := sig_of (ob_world o) (ob_op o) in
+  let sg := gsig_of (ob_world o) (ob_op o) in
   fsubset (ob_arg_rw o) (s_rewrite sg) &&
   fsubset (ob_tgt_w o) (if is_mutate (s_cat sg) then s_write sg else []) &&
   fsubset (ob_share o) (s_share sg) &&
